@@ -45,6 +45,9 @@ EDITS = {
     "C05": [
         ("cc01", "crates/lib/mimium-lang/src/runtime/vm.rs", "                    self.states_stack.push(cls_i);\n                    self.call_function(func, nargs, nret_req, move |machine| {\n                        machine.execute(pos_of_f, Some(cls_i))\n                    });\n                    self.states_stack.pop();\n                }\n                Instruction::Call(", "                    self.states_stack.push(cls_i);\n                    self.call_function(func, nargs, nret_req, move |machine| {\n                        machine.execute(pos_of_f, Some(cls_i))\n                    });\n                }\n                Instruction::Call(", "verus", "vm_storage"),
         ("cc02", "crates/lib/mimium-lang/src/runtime/vm.rs", "                    let pos_of_f = cls.fn_proto_pos;\n                    self.states_stack.push(cls_i);\n                    self.call_function(func, nargs, nret_req, move |machine| {\n                        machine.execute(pos_of_f, Some(cls_i))\n                    });\n                    self.states_stack.pop();\n                }\n                Instruction::Call(", "                    let pos_of_f = cls.fn_proto_pos;\n                    self.call_function(func, nargs, nret_req, move |machine| {\n                        machine.execute(pos_of_f, Some(cls_i))\n                    });\n                }\n                Instruction::Call(", "verus", "vm_storage"),
+        ("aa01", "crates/lib/mimium-lang/src/compiler/mirgen.rs", "            states.extend(s);\n            self.push_inst(Instruction::Store(ptr, v, elem_ty));", "            if i == 0 { states.extend(s); }\n            self.push_inst(Instruction::Store(ptr, v, elem_ty));", "verus", "mirgen_state"),
+        ("aa02", "crates/lib/mimium-lang/src/compiler/mirgen.rs", "        // from the type information.\n        (dst, alloc_ty, states)", "        // from the type information.\n        (dst, alloc_ty, Vec::new())", "verus", "mirgen_state"),
+        ("ea01", "crates/lib/mimium-lang/src/compiler/mirgen.rs", "        (ats, states)\n    }", "        (ats, Vec::new())\n    }", "verus", "mirgen_state"),
         ("sy01", "crates/lib/mimium-lang/src/mir.rs", "            Type::Tuple(elems) => StateType(elems.iter().map(|ty| ty.word_size() as u64).sum()),", "            Type::Tuple(elems) => StateType(elems.len() as u64),", "verus", "state_type"),
         ("sy02", "crates/lib/mimium-lang/src/mir.rs", "                    .map(|RecordTypeField { ty, .. }| ty.word_size() as u64)\n                    .sum(),", "                    .map(|RecordTypeField { ty, .. }| ty.word_size().min(1) as u64)\n                    .sum(),", "verus", "state_type"),
         ("sy03", "crates/lib/mimium-lang/src/mir.rs", "            Type::Primitive(PType::Unit) => StateType(0),", "            Type::Primitive(PType::Unit) => StateType(1),", "verus", "state_type"),
@@ -106,6 +109,9 @@ EDITS = {
         ("st03", ST + "tree.rs", "DELAY_ADDITIONAL_OFFSET as u64 + *len", "*len", "verus", "state_tree"),
     ],
     "C12": [
+        ("px01", "crates/lib/mimium-lang/src/compiler/mirgen.rs", "                self.insert_clone_recursively(res.clone(), elem_ty);\n                (res, elem_ty, states)", "                (res, elem_ty, states)", "verus", "mirgen_rc"),
+        ("px02", "crates/lib/mimium-lang/src/compiler/mirgen.rs", "                        self.insert_clone_recursively(res.clone(), field_ty);", "                        self.insert_clone_recursively(res.clone(), expr_ty);", "verus", "mirgen_rc"),
+        ("px03", "crates/lib/mimium-lang/src/compiler/mirgen.rs", "                        self.insert_clone_recursively(res.clone(), field_ty);", "                        self.insert_clone_recursively(expr_v.clone(), field_ty);", "verus", "mirgen_rc"),
         ("hp01", RT + "vm/heap.rs", "        obj.refcount -= 1;\n        log::trace!(\"heap_release: {:?} refcount -> {}\", idx, obj.refcount);", "        obj.refcount -= 2;\n        log::trace!(\"heap_release: {:?} refcount -> {}\", idx, obj.refcount);", "both", "heap"),
         ("hp02", RT + "vm/heap.rs", "        if obj.refcount == 0 {\n            log::trace!(\"heap_release: freeing {idx:?}\");", "        if obj.refcount <= 1 {\n            log::trace!(\"heap_release: freeing {idx:?}\");", "both", "heap"),
         ("hp03", RT + "vm/heap.rs", "obj.refcount += 1;", "obj.refcount += 2;", "both", "heap"),
